@@ -21,6 +21,9 @@ C18  Pickling round-trip preserves program units.
      a changed scope, so every comparison of a ``self.rec(...)`` result with the
      value it was computed from must be ``is`` / ``is not`` -- with ``==`` the
      re-attached kind / initial-value expressions are never written back.
+ R6  unpickling re-attaches the symbols last and unconditionally: in ``__setstate__``
+     of the program units ``self.rescope_symbols()`` is not guarded and follows
+     every ``_reset_parent`` of the contained scopes.
 Not decided: equality of everything else.
 """
 import ast
@@ -238,8 +241,49 @@ def run(ctx):
          ctx.violation('R3', f'{cn}.__getstate__:drops', gsf.where, f'{cn}.__getstate__ also drops {sorted(extra)}: content is lost'))
 
     _r4_r5(ctx)
+    # ---- R6 unpickling re-attaches the symbols last and unconditionally
+    ctx.rule('R6', '__setstate__ of program units: self.rescope_symbols() is unconditional and follows every _reset_parent(...) of contained scopes')
+    n6 = 0
+    for rel, cn in (('loki/subroutine.py', 'Subroutine'), ('loki/module.py', 'Module'), ('loki/function.py', 'Function')):
+        try:
+            C_ = m.get_class(rel, cn)
+        except AnalysisError:
+            continue
+        ss_ = C_.function('__setstate__')
+        if ss_ is None:
+            continue
+        res = [(c_, g_) for c_, g_ in X.nodes_with_guards(ss_.node, lambda x: isinstance(x, ast.Call) and X.dotted_attr(x.func) == 'self.rescope_symbols')]
+        n6 += 1
+        if not res:
+            ctx.violation('R6', f'{cn}.__setstate__:rescope:missing', ss_.where,
+                          f'{cn}.__setstate__ never calls self.rescope_symbols(): the symbols of the unpickled unit keep scope=None')
+            continue
+        rp_ = [c_.lineno for c_ in ast.walk(ss_.node) if isinstance(c_, ast.Call) and isinstance(c_.func, ast.Attribute) and c_.func.attr == '_reset_parent']
+        in_loop = [c_ for c_, _ in res if any(isinstance(l_, (ast.For, ast.While)) and c_ in list(ast.walk(l_)) for l_ in ast.walk(ss_.node))]
+        for c_, g_ in res:
+            inst = f'{cn}.__setstate__:rescope'
+            if g_ or in_loop:
+                ctx.violation('R6', f'{inst}:conditional', f'{rel}:{c_.lineno}',
+                              f'`self.rescope_symbols()` runs only under {g_ or "a loop"}: on the other path the symbols of the unpickled unit keep '
+                              f'scope=None (declared variables, typedef members and kinds lose their types)')
+            elif rp_ and c_.lineno < max(rp_):
+                ctx.violation('R6', f'{inst}:before-reparenting', f'{rel}:{c_.lineno}',
+                              'the symbols are re-attached before the contained procedures / scopes are re-parented: while rescoping, the members '
+                              'have no parent yet, so host-associated symbols in their bodies stay detached (scope=None, DEFERRED type)')
+            else:
+                ctx.judge('R6', inst, facts={'reset_parent_calls': len(rp_)})
+    ctx.floor('R6', '__setstate__ methods of program units', n6, 2)
+
 
 MUTANTS = [
+    Mutant('rescope-before-reparenting', 'loki/subroutine.py',
+           "        # Re-register all encapulated member procedures and update parentage\n        for member in self.members:",
+           "        self.rescope_symbols()\n\n        # Re-register all encapulated member procedures and update parentage\n        for member in self.members:",
+           also=[('loki/subroutine.py', "            self.symbol_attrs[member.name] = SymbolAttributes(ProcedureType(procedure=member))\n\n        # Ensure that we are attaching all symbols to the newly create ``self``.\n        self.rescope_symbols()\n",
+                  "            self.symbol_attrs[member.name] = SymbolAttributes(ProcedureType(procedure=member))\n")],
+           expect=('R6', 'before-reparenting')),
+    Mutant('rescope-only-with-contains', 'loki/module.py', "        # Ensure that we are attaching all symbols to the newly create ``self``.\n        self.rescope_symbols()\n\n    @property\n    def definitions",
+           "            self.rescope_symbols()\n\n    @property\n    def definitions", expect=('R6', 'conditional')),
     Mutant('symbolattributes-truthy-state', 'loki/types/symbol_table.py', "    def __getstate__(self):\n        return self.__dict__\n",
            "    def __getstate__(self):\n        return {k: v for k, v in self.__dict__.items() if k == 'dtype' or v}\n", expect=('R4', 'SymbolAttributes.__getstate__')),
     Mutant('neutral-symbolattributes-not-none-state', 'loki/types/symbol_table.py', "    def __getstate__(self):\n        return self.__dict__\n",
